@@ -291,7 +291,8 @@ def _check_expected(ctx, case, obs, sc, site='get_volume_positions'):
     if obs[0] != 'ok':
         ctx.fail(case, {'what': 'regular stack not recognised', 'got': obs, 'want': exp}, site=site)
         return
-    if abs(obs[1] - exp[1]) > 1e-6 * max(1.0, exp[1]) + (0.06 * exp[1] if sc['scenario'].startswith(('jitter', 'shear')) else 0):
+    # jitter moves interior planes only and shear is in-plane, so the mean spacing along the normal is still exactly s
+    if abs(obs[1] - exp[1]) > 1e-6 * max(1.0, exp[1]):
         ctx.fail(case, {'what': 'wrong spacing', 'got': obs[1], 'want': exp[1]}, site=site)
     if obs[2] != exp[2]:
         ctx.fail(case, {'what': 'wrong volume indices', 'got': obs[2], 'want': exp[2]}, site=site)
